@@ -54,6 +54,12 @@ class Vars:
                 p, n = z3.Bool(name + '!pinf'), z3.Bool(name + '!ninf')
                 self.assumptions.append(z3.Not(z3.And(p, n)))
                 return sx.SX(v, pinf=p, ninf=n)
+        if kind == 'any':      # any float incl. nan and both infinities (fully tagged)
+            if cls == 'F':
+                return sx.SX(v)
+            p, n, q = z3.Bool(name + '!pinf'), z3.Bool(name + '!ninf'), z3.Bool(name + '!nan')
+            self.assumptions.append(z3.AtMost(p, n, q, 1))
+            return sx.SX(v, nan=q, pinf=p, ninf=n)
         if kind == 'lin':      # unrestricted real (cotangents)
             return sx.SX(v)
         raise ValueError((kind, cls))
